@@ -40,7 +40,7 @@ type hist struct {
 	r *hx.Run
 	s *ctrl.Session
 
-	cfgs      []ctrl.Config   // configurations since reset, in order
+	cfgs      []ctrl.Config     // configurations since reset, in order
 	written   map[string]string // manifest -> key set under which its stored report was last written
 	clobbered map[string]bool   // manifest -> a failed attempt hit it while it was recorded as scanned
 	log       []string
@@ -190,6 +190,78 @@ func (h *hist) index(m []int, script ctrl.Script) {
 	}
 }
 
+// delete performs one DeleteManifests call and checks what it must and must
+// not remove.
+func (h *hist) delete(ms [][]int) {
+	w := h.s.W
+	inArg := map[string]bool{}
+	var want []string
+	for _, m := range ms {
+		k := ctrl.LayersString(m)
+		if !inArg[k] && w.Store.HasManifest(ctrl.ManifestDigest(m).String()) {
+			want = append(want, k)
+		}
+		inArg[k] = true
+	}
+	type snap struct {
+		had             bool
+		stored, scanned string
+	}
+	before := map[string]snap{}
+	for k, m := range h.s.Manifests {
+		before[k] = snap{w.Store.HasManifest(ctrl.ManifestDigest(m).String()), w.StoredSummary(m), w.ScannedBy(m)}
+	}
+	layerBefore := map[int]string{}
+	for k, m := range h.s.Manifests {
+		if inArg[k] {
+			continue
+		}
+		for _, l := range m {
+			layerBefore[l] = w.LayerState(l)
+		}
+	}
+	out := h.s.Delete(ms)
+	h.log = append(h.log, ctrl.DeleteOp(ms))
+	wit := fmt.Sprintf("history [%s] => %s", h.where(), out)
+	h.r.Case("delete "+wit, true)
+	wantS := "-"
+	if len(want) > 0 {
+		wantS = strings.Join(want, ";")
+	}
+	if !strings.HasPrefix(out, "del="+wantS+" ") {
+		h.r.Fail("", "DeleteManifests does not report exactly the manifests it held ("+wantS+"): "+wit)
+	}
+	for _, m := range ms {
+		k := ctrl.LayersString(m)
+		if w.Store.HasManifest(ctrl.ManifestDigest(m).String()) || strings.Contains(w.ScannedBy(m), "1") || w.StoredSummary(m) != "-" {
+			h.r.Fail("", "manifest "+k+" was deleted but is still persisted / recorded as scanned / has a stored report: "+wit)
+		}
+		delete(h.written, k)
+		delete(h.clobbered, k)
+		h.r.Count("delete.known=" + fmt.Sprint(before[k].had))
+	}
+	for k, m := range h.s.Manifests {
+		if inArg[k] {
+			continue
+		}
+		b := before[k]
+		if b.had != w.Store.HasManifest(ctrl.ManifestDigest(m).String()) || b.stored != w.StoredSummary(m) || b.scanned != w.ScannedBy(m) {
+			h.r.Fail("", fmt.Sprintf("deleting other manifests changed the records of manifest %s (stored %s -> %s, scanned %s -> %s): %s", k, b.stored, w.StoredSummary(m), b.scanned, w.ScannedBy(m), wit))
+		}
+		if !b.had {
+			continue
+		}
+		for _, l := range m {
+			if now := w.LayerState(l); now != layerBefore[l] {
+				h.r.Fail("", fmt.Sprintf("layer %d is still referred to by manifest %s but its scan records changed (%s -> %s): %s", l, k, layerBefore[l], now, wit))
+			}
+		}
+	}
+	for _, b := range h.s.CheckStore() {
+		h.r.Fail("", b+": "+wit)
+	}
+}
+
 func bucket(n int) int {
 	for _, b := range []int{0, 1, 2, 4, 8, 16} {
 		if n <= b {
@@ -305,7 +377,7 @@ func Run(cfg hx.Config) error {
 		return err
 	}
 	defer r.Close()
-	r.Rule = "each case = one libindex.New (config) or Libindex.Index call of a history on the real code over the in-memory store: 5..40 calls over a family of 3..5 manifests drawn from 6 layers (shared and repeated layers), one call in 7 carries a random fault, one in 7 changes the scanner set (add, remove, version bump, same name under another kind, permutation, rollback); every fault-free Index is compared with a cold run of the same manifest under the current configuration on a fresh store; non-trivial = Index on a store that already went through at least two operations"
+	r.Rule = "each case = one libindex.New (config) or Libindex.Index call of a history on the real code over the in-memory store: 5..40 calls over a family of 3..5 manifests drawn from 6 layers (shared and repeated layers), one call in 7 carries a random fault, one in 8 changes the scanner set (add, remove, version bump, same name under another kind, permutation, rollback), one in 8 is a Libindex.DeleteManifests of one or two manifests of the family (or an unknown one); every fault-free Index is compared with a cold run of the same manifest under the current configuration on a fresh store; non-trivial = Index on a store that already went through at least two operations"
 	rnd := hx.NewRand(cfg.Seed)
 	h := &hist{r: r, s: ctrl.NewSession(r)}
 	h.known()
@@ -323,7 +395,17 @@ func Run(cfg hx.Config) error {
 		nops := 5 + rnd.Intn(36)
 		r.Count(fmt.Sprintf("history.ops<=%d", (nops+9)/10*10))
 		for j := 0; j < nops && !r.Stop() && !h.s.Lost; j++ {
-			switch x := rnd.Intn(7); {
+			switch x := rnd.Intn(8); {
+			case x == 7:
+				// delete one or two manifests of the family, sometimes one that was never indexed, sometimes one twice
+				var ms [][]int
+				for k := 1 + rnd.Intn(2); k > 0; k-- {
+					ms = append(ms, family[rnd.Intn(nman)])
+				}
+				if rnd.Chance(1, 6) {
+					ms = append(ms, []int{7, 8})
+				}
+				h.delete(ms)
 			case x == 0:
 				next, how := mutate(rnd, cur, h.cfgs)
 				r.Count("config." + how)
